@@ -227,7 +227,7 @@ int main(int argc, char** argv) {
    std::vector<Event> base = {{'m', 1, -1}, {'m', 3, -1}, {'m', 6, -1}, {'R', 0, -1}};
    std::vector<Event> ext = base;
    if (th) { ext.push_back({'C', 0, -1}); for (int len : {1, 3, 6}) for (int k = 0; k <= 2; ++k) ext.push_back({'m', len, k}); }
-   const int depth_plain = th ? 8 : 6, depth_ext = 6;
+   const int depth_plain = vf::deep() ? 10 : th ? 8 : 6, depth_ext = vf::deep() ? 7 : 6;
    for (int pass = 0; pass < (th ? 2 : 1); ++pass) {
       const std::vector<Event>& alpha = pass == 0 ? base : ext; int depth = pass == 0 ? depth_plain : depth_ext;
       for (auto& c : cfgs) for (auto& e0 : alpha) for (auto& e1 : alpha) {
